@@ -209,6 +209,12 @@ def run_crash_history(ctx, base, spec, ops, host, crash_at):
             ncalls = res["ncalls"]
             after = healthy_view(sim) if crash else None
             tainted = set(sim.tainted)
+            if crash:
+                # the killed daemon is restarted before any other host acts, so that the comparison with the uninterrupted run is
+                # not blurred by a different order of the hosts' iterations
+                r2 = sim.iterate(host)
+                if r2["error"]:
+                    return {"ncalls": ncalls, "after_crash": after, "end": healthy_view(sim), "tainted": tainted, "rounds": 0, "err": r2["error"], "index": sim.index()}
             rounds, err = settle(sim, histories.HOSTS)
             return {"ncalls": ncalls, "after_crash": after, "end": healthy_view(sim), "tainted": tainted, "rounds": rounds, "err": err, "index": sim.index()}
         finally:
